@@ -89,6 +89,9 @@ impl PathBuf {
         ensures self.abs_clean() && self@.len() > 0 ==> r is Ok && r->Ok_0@ == self@.last(),
                 self.abs_clean() && self@.len() == 0 ==> r is Ok,
     { unimplemented!() }
+    // PathExt::has_prefix / has_suffix compare the TEXT of the paths (unit path_helpers); at the component level used here they are unspecified
+    #[verifier::external_body] pub fn has_prefix<T: PathArg>(&self, p: T) -> (b: bool) { unimplemented!() }
+    #[verifier::external_body] pub fn has_suffix<T: PathArg>(&self, p: T) -> (b: bool) { unimplemented!() }
     // PathExt::name: the final component without its extension (unit path_helpers); equal to base() only when there is no extension,
     // which nothing here decides, so the result is unspecified
     #[verifier::external_body]
